@@ -15,6 +15,17 @@ a Deferred fired by a timer after a latency, or one fired by hand / never; the
 tape also issues stop() (from outside and from inside the function), reset()
 and restarts.
 
+Two further families (per-run knobs, each off in a third of the runs):
+
+  failures outside Exception   what the function raises, and what its Deferred fails with, is drawn also from
+              BaseException subclasses that are NOT Exception subclasses (a harness-defined Stop, KeyboardInterrupt,
+              SystemExit, asyncio.CancelledError): "raises" in the statement is unrestricted, such a failure ends the
+              loop and fires start()'s Deferred like any other.  Every call into the code under test sits in an
+              `Escape` block: an exception of ANY type escaping from it is the violation `no-raise`.
+  near-boundary amounts   clock steps and Deferred latencies are also aimed at the model's grid: they end
+              2**-k intervals (k in 3..16) before or after - or exactly on - one of the next boundaries, so calls
+              complete a hair before / after a boundary and not only at the coarse fractions of the tables below.
+
 Oracle: a reference model written from the property statement in exact
 rational arithmetic (fractions.Fraction): the boundary grid start + k*interval,
 "first boundary strictly after the completion of the previous call", the
@@ -24,10 +35,14 @@ The LoopingCall receives a recording wrapper around the clock, so every timer
 it schedules is compared with the model on the DelayedCall's *scheduled* time
 (independent of how far a jump overshoots).
 """
+import asyncio
+import traceback
 from fractions import Fraction
 
 from twisted.internet import defer, task
 from twisted.python.failure import Failure
+
+from detsim.sim import StepLimit, Violation
 
 ID = "C10"
 ENGINE = "clock"
@@ -45,10 +60,22 @@ COMPONENTS = {"real": ["twisted.internet.task.LoopingCall (start/stop/reset/__ca
 RULE = ("run = one LoopingCall (dyadic interval, now flag, plain/withCount, clock family drawn) driven by 5..40 tape-chosen operations "
         "(clock step of a sub-interval / exact-interval / many-interval amount, run next timer, fire or fail the outstanding Deferred, stop, reset, restart - from the top level or from inside the callback of the previous start()'s Deferred); "
         "each call's behaviour (return, raise, fired Deferred, Deferred with timer latency, hand-fired Deferred, stop from inside) is drawn when it happens; "
+        "the exception a call raises or its Deferred fails with is a ScriptedError or (weight knob, off in 1/3 of the runs) a BaseException subclass outside "
+        "Exception: a harness-defined Stop, KeyboardInterrupt, SystemExit, asyncio.CancelledError - every call into the LoopingCall / the clock sits in an "
+        "Escape block, so an exception of any type that comes out of it is the violation no-raise; "
+        "clock steps and latencies come from tables of coarse multiples of the interval or (weight knob, off in 1/3 of the runs) are aimed at the grid: they end "
+        "2**-k intervals (k in 3..16) before / after, or exactly on, one of the next four boundaries, so calls complete (Deferred fired, or late synchronous call "
+        "after a jump) a hair before or after a boundary; "
         "on withCount loops every count is compared with the model, before and after reset() (reset strictly between two boundaries, on a boundary, before the first call, "
         "after a late call, after a slow Deferred, several in a row); "
         "non-trivial = at least 2 calls AND (a completion off the boundary grid, a clock overshoot, a stop or a reset occurred)")
 ASSUMPTIONS = ["interval > 0 and all times are dyadic rationals (exact in binary floating point), as in the statement's quantifier",
+               "'raises' / 'a failure' in the statement are unrestricted: a KeyboardInterrupt / SystemExit / asyncio.CancelledError / application-defined "
+               "BaseException raised by the looped function, or carried by the failure of the Deferred it returned, ends the loop and fires start()'s Deferred "
+               "with that failure like any other exception, and does not come out of start() or of the clock (the unchanged code routes every outcome of the "
+               "function through maybeDeferred, which has a single `except BaseException`); GeneratorExit is never used",
+               "near-boundary amounts stay at least 2**-16 interval away from a boundary (or exactly on it) and all times stay below 2**15 s, so every "
+               "quantity the LoopingCall computes is exact in a double; the float-absorption guard of _scheduleFrom is outside the quantifier",
                "start() is not called again while a previous call's Deferred is still outstanding (caller error outside the statement)",
                "withCount and reset(): until the first effective reset() the sum clause is checked as a running total from start(); once reset() has moved the "
                "boundary grid it is checked per call on the grid in force (count == boundaries in (previous invocation, this invocation]); the first call "
@@ -66,8 +93,50 @@ STEP_MULT = [1.0, 0.25, 0.5, 0.75, 1.25, 2.0, 3.5, 10.25, 0.125, 4.0, 17.0]
 LAT_MULT = [0.5, 1.0, 0.25, 1.75, 2.0, 3.25, 0.125]
 
 
+# distance from a boundary of the near-boundary amounts: 2**-k intervals (all times stay dyadic and far inside 53 bits)
+FINE_EXP = [7, 3, 10, 5, 8, 16, 6, 12, 4, 9]
+
+TAG = "c10"     # first argument of every exception the scenario creates (a watchdog of the runner or a real Ctrl-C has none)
+
+
 class ScriptedError(Exception):
     pass
+
+
+class Stop(BaseException):
+    """Harness-defined exception deriving from BaseException but NOT from Exception (an application-level "stop" class)."""
+
+
+# exception classes outside the Exception hierarchy that a looped function (or the Deferred it returned) may fail with
+BARE = (Stop, KeyboardInterrupt, SystemExit, asyncio.CancelledError)
+
+
+def _ours(e):
+    return bool(e.args) and e.args[0] == TAG
+
+
+class Escape:
+    """`with Escape(sim, clause, witness):` around EVERY call into the code under test: an exception that escapes from it -
+    including a BaseException that is not an Exception, e.g. a SystemExit or KeyboardInterrupt of the looped function that
+    should have gone into start()'s Deferred - is the violation `clause` (sim.guard lets those pass, and a leaked SystemExit
+    would silently end the worker process)."""
+
+    def __init__(self, sim, clause, witness):
+        self.sim, self.clause, self.witness = sim, clause, witness
+
+    def __enter__(self):
+        return self
+
+    def __exit__(self, et, ev, tb):
+        if et is None or issubclass(et, (Violation, StepLimit)):
+            return False
+        if not issubclass(et, Exception) and not _ours(ev):
+            return False            # the runner's watchdogs
+        where = traceback.extract_tb(tb)[-1]
+        self.sim.check(self.clause, False, "%s:%s" % (self.witness, et.__name__),
+                       "%s: %s escaped from the code under test (at %s:%s %s)"
+                       % (et.__name__, str(ev)[:200], where.filename.split("/")[-1], where.lineno, where.name))
+        return False
 
 
 class Model:
@@ -200,7 +269,12 @@ def run(sim):
     counted = sim.draw_bool(0.5, "withCount")
     offset = sim.draw_int(0, 40, "offset") / 8.0
     nops = sim.draw_int(5, 40 * sim.depth, "nops")
-    sim.config = {"family": family, "interval": interval, "now": now_flag, "withCount": counted, "offset": offset, "nops": nops}
+    # weight of the exception classes outside the Exception hierarchy among the failures of the looped function; 0 = none
+    bare_w = sim.draw_choice([0, 1, 3], "bare_exception_weight")
+    # weight of the near-boundary amounts among clock steps and latencies (against 6 for the tables); 0 = none
+    fine_w = sim.draw_choice([0, 1, 3], "near_boundary_weight")
+    sim.config = {"family": family, "interval": interval, "now": now_flag, "withCount": counted, "offset": offset, "nops": nops,
+                  "bare_exception_weight": bare_w, "near_boundary_weight": fine_w}
 
     if family == "task-clock":
         clk = task.Clock()
@@ -229,16 +303,56 @@ def run(sim):
 
     rclk = RecordingClock(clk, on_sched)
 
+    def new_failure(tag):
+        """The exception a call fails with: a ScriptedError, or (knob) one of the classes outside the Exception hierarchy."""
+        cls = ScriptedError
+        if bare_w:
+            cls = sim.draw_weighted([(ScriptedError, 4)] + [(c, bare_w) for c in BARE], "failure_class")
+        if cls is not ScriptedError:
+            sim.fault("failure_outside_Exception_hierarchy")
+        sim.event("failure-class", cls.__name__)
+        return cls(TAG, tag)
+
+    # one draw decides between the entries of a table (weight 6 each) and a near-boundary amount (None; weight fine_w per entry)
+    step_table = [(x, 6) for x in STEP_MULT] + [(None, fine_w * len(STEP_MULT))]
+    lat_table = [(x, 6) for x in LAT_MULT] + [(None, fine_w * len(LAT_MULT))]
+
+    def amount(table, label):
+        """A clock step / latency in seconds: a multiple of the interval from `table`, or (knob) an amount that ends 2**-k
+        intervals before / after - or exactly on - one of the next boundaries of the model's grid."""
+        mult = sim.draw_weighted(table, label)
+        if mult is not None:
+            return mult * st["interval"]
+        t = Fraction(clk.seconds())
+        target = m.boundary_after(t) + sim.draw_int(0, 3, label + "_boundaries_ahead") * m.I
+        side = sim.draw_weighted([("before", 4), ("after", 3), ("on", 1)], label + "_side")
+        eps = m.I / 2 ** sim.draw_choice(FINE_EXP, label + "_exponent")
+        if side == "before" and target - eps > t:
+            target -= eps
+        elif side == "after":
+            target += eps
+        sim.probe("near_boundary_" + label)
+        return float(target - t)
+
+    def note_completion(t):
+        """Counters only: where on the grid a call completed."""
+        off = (Fraction(t) - m.origin) % m.I
+        if off != 0:
+            st["offgrid"] += 1
+            sim.probe("completion_off_grid")
+            if m.I - off < m.I / 64:
+                sim.probe("completion_less_than_64th_interval_before_boundary")
+            elif off < m.I / 64:
+                sim.probe("completion_less_than_64th_interval_after_boundary")
+
     def fire(d, ok):
         """Complete a call's Deferred (from a latency timer or by hand)."""
         t = clk.seconds()
-        exc = None if ok else ScriptedError("deferred")
         sim.event("fire", t, "ok" if ok else "fail")
+        exc = None if ok else new_failure("deferred")
         if st["manual"] is d:
             st["manual"] = None
-        if m.origin is not None and (Fraction(t) - m.origin) % m.I != 0:
-            st["offgrid"] += 1
-            sim.probe("completion_off_grid")
+        note_completion(t)
         m.complete(t, ok, exc)
         if ok:
             d.callback("ignored")
@@ -295,6 +409,8 @@ def run(sim):
         kind = sim.draw_weighted([("return", 8), ("latency-ok", 5), ("manual", 2), ("fired-ok", 1), ("stop-inside", 1),
                                   ("latency-fail", 1), ("raise", 1), ("fired-fail", 1)], "behaviour")
         sim.event("behaviour", kind)
+        if not st["exact"] and kind in ("return", "stop-inside", "raise", "fired-ok", "fired-fail"):
+            note_completion(t)      # completes synchronously: off the grid only when the clock overshot
         if kind == "return":
             m.complete(t, True)
             return None
@@ -306,7 +422,7 @@ def run(sim):
             m.complete(t, True)
             return None
         if kind == "raise":
-            exc = ScriptedError("raised")
+            exc = new_failure("raised")
             m.complete(t, False, exc)
             sim.probe("call_raised")
             raise exc
@@ -314,7 +430,7 @@ def run(sim):
             m.complete(t, True)
             return defer.succeed(None)
         if kind == "fired-fail":
-            exc = ScriptedError("fired")
+            exc = new_failure("fired")
             m.complete(t, False, exc)
             return defer.fail(exc)
         d = defer.Deferred()
@@ -323,7 +439,7 @@ def run(sim):
             st["manual"] = d
             sim.probe("manual_deferred")
         else:
-            lat = sim.draw_choice(LAT_MULT, "latency") * st["interval"]
+            lat = amount(lat_table, "latency")
             sim.event("latency", lat)
             clk.callLater(lat, fire, d, kind == "latency-ok")
         if sim.draw_bool(0.25, "called_but_pending"):
@@ -361,7 +477,7 @@ def run(sim):
         sim.event("start", t, ival, now)
         st["interval"] = ival
         m.start(t, ival, now)
-        with sim.guard("no-raise", "start"):
+        with Escape(sim, "no-raise", "start"):
             d = lc.start(ival, now=now)
         d.addBoth(record)
 
@@ -398,18 +514,18 @@ def run(sim):
         op = sim.draw_weighted(ops, "op")
         full = False
         if op == "clock":
-            dt = sim.draw_choice(STEP_MULT, "dt") * st["interval"]
+            dt = amount(step_table, "dt")
             if family == "task-clock":
                 st["exact"] = False
                 sim.event("task.Clock.advance", dt)
-                with sim.guard("no-raise", "clock"):
+                with Escape(sim, "no-raise", "clock"):
                     clk.advance(dt)
                 full = True
             else:
                 modes = ["advance", "run_next"] + (["jump", "jump"] if family == "sim-jump" else [])
                 mode = sim.draw_choice(modes, "mode")
                 sim.event("clock", mode, dt)
-                with sim.guard("no-raise", "clock"):
+                with Escape(sim, "no-raise", "clock"):
                     if mode == "advance":
                         st["exact"] = True
                         clk.advance(dt)
@@ -423,7 +539,7 @@ def run(sim):
                         full = True
         elif op == "fire":
             ok = not sim.draw_bool(0.25, "fail")
-            with sim.guard("no-raise", "fire"):
+            with Escape(sim, "no-raise", "fire"):
                 fire(st["manual"], ok)
         elif op == "stop":
             st["stops"] += 1
@@ -433,7 +549,7 @@ def run(sim):
             if not m.outstanding and not counted and sim.draw_bool(0.3, "restart_from_callback"):
                 st["restart_in_cb"] = (sim.draw_choice(INTERVALS, "interval2"), sim.draw_bool(0.5, "now2"))
             m.stop()
-            with sim.guard("no-raise", "stop"):
+            with Escape(sim, "no-raise", "stop"):
                 lc.stop()
             st.pop("restart_in_cb", None)
         elif op == "reset":
@@ -444,7 +560,7 @@ def run(sim):
             clean = m.reset(clk.seconds())
             if counted and clean is not None:
                 sim.probe("reset_withCount_nothing_owed" if clean else "reset_withCount_boundaries_owed")
-            with sim.guard("no-raise", "reset"):
+            with Escape(sim, "no-raise", "reset"):
                 lc.reset()
         else:
             st["restarts"] += 1
@@ -457,6 +573,13 @@ def run(sim):
 
 
 MUTANTS = [
+    "seeded C10-r5a: __call__ invokes f directly inside try/except Exception instead of maybeDeferred (a KeyboardInterrupt/SystemExit/CancelledError of the "
+    "function escapes, start()'s Deferred is lost): CAUGHT no-raise:clock:<type> / no-raise:start:<type> / start-deferred-fired (was missed while only "
+    "Exception subclasses were raised)",
+    "seeded C10-r5b: _scheduleFrom treats a remainder < interval/100 as zero and skips a boundary: CAUGHT schedule-on-boundary (was missed while all "
+    "completions were at multiples of interval/8 off the grid)",
+    "task.py __call__.eb 'd.errback(failure)' only for failure.check(Exception) (bare failures of the call's Deferred dropped): CAUGHT start-deferred-fired",
+    "task.py _scheduleFrom 'untilNextInterval = self.interval - (runningFor % self.interval)' -> rounds runningFor to 1/64 interval first: CAUGHT schedule-on-boundary",
     "task.py _scheduleFrom 'untilNextInterval = self.interval - (runningFor % self.interval)' -> 'untilNextInterval = self.interval' (drift): CAUGHT schedule-on-boundary",
     "task.py withCount counter 'lastTime -= self.interval' removed (count from wrong base, first count 0): CAUGHT schedule-expected (callable skipped)",
     "task.py withCount counter 'self._realLastTime = now' (count>0 branch) removed: CAUGHT count-sum",
